@@ -146,10 +146,11 @@ def run(tier, seed, replay=None):
         # ---- options with a flag and a key: flag state x key state ---------------------------------------------------------------
         for name, flag, section, key, default, values, read in BOTH:
             for fv in [None] + values:                       # None = flag absent
-                for kv in [None] + values:                   # None = key absent
-                    cfg = None if kv is None else "[%s]\n%s = %s\n" % (section, key, toml_lit(kv))
+              for cfg_name, head in ((".pyscn.toml", "[%s]"), ("pyproject.toml", "[tool.pyscn.%s]")):     # both kinds of configuration file
+                for kv in ([None] if cfg_name == ".pyscn.toml" else []) + values:                   # None = key absent
+                    cfg = None if kv is None else (head % section) + "\n%s = %s\n" % (key, toml_lit(kv))
                     flags = [] if fv is None else [flag, str(fv)]
-                    data, err = analyze(root, "proj", cfg_text=cfg, flags=flags)
+                    data, err = analyze(root, "proj", cfg_text=cfg, cfg_name=cfg_name, flags=flags)
                     hist["cells_both"] += 1
                     want = fv if fv is not None else (kv if kv is not None else default)
                     cell = {"option": name, "flag": "absent" if fv is None else ("default" if fv == default else "other"),
@@ -163,7 +164,7 @@ def run(tier, seed, replay=None):
                         sig = dict(cell, kind="precedence")
                         k = C.classify(PID, sig)
                         what = "C17: option %s: flag %s, config key %s -> effective %r, expected %r (flag > file > default %r)" % (
-                            name, "absent" if fv is None else "%s %s" % (flag, fv), "absent" if kv is None else "[%s] %s = %s" % (section, key, toml_lit(kv)), got, want, default)
+                            name, "absent" if fv is None else "%s %s" % (flag, fv), "absent" if kv is None else "%s: %s %s = %s" % (cfg_name, head % section, key, toml_lit(kv)), got, want, default)
                         if k:
                             res.known_finding(k, "(%s)" % what)
                         else:
@@ -177,9 +178,9 @@ def run(tier, seed, replay=None):
             if default is not None and dflt != default:
                 res.violation("C17: without any configuration the echoed %s.%s is %r, the documented default is %r" % (section, key, dflt, default),
                               {"signature": {"kind": "default", "section": section, "key": key}})
-            for kv in values:
-                cfg = "[%s]\n%s = %s\n" % (section, key, toml_lit(kv))
-                data, err = analyze(root, "proj", cfg_text=cfg)
+            for kv, cfg_name, head in [(v, n, h) for v in values for n, h in ((".pyscn.toml", "[%s]"), ("pyproject.toml", "[tool.pyscn.%s]"))]:
+                cfg = (head % section) + "\n%s = %s\n" % (key, toml_lit(kv))
+                data, err = analyze(root, "proj", cfg_text=cfg, cfg_name=cfg_name)
                 hist["cells_file_only"] += 1
                 if data is None:
                     res.violation("C17: analyze fails with [%s] %s = %s: %s" % (section, key, toml_lit(kv), err[-200:]), {"signature": {"kind": "error", "section": section, "key": key}, "config": cfg})
@@ -189,7 +190,7 @@ def run(tier, seed, replay=None):
                 if got != kv:
                     sig = {"kind": "file-key-ignored", "section": section, "key": key, "zero": kv in (0, 0.0, False)}
                     k = C.classify(PID, sig)
-                    what = "C17: [%s] %s = %s is present in the configuration file, the effective value is %r (default %r)" % (section, key, toml_lit(kv), got, dflt)
+                    what = "C17: %s %s = %s is present in %s, the effective value is %r (default %r)" % (head % section, key, toml_lit(kv), cfg_name, got, dflt)
                     if k:
                         res.known_finding(k, "(%s)" % what)
                     else:
@@ -339,6 +340,38 @@ def run(tier, seed, replay=None):
                         res.known_finding(k, "(%s)" % what[:300])
                     else:
                         res.violation(what, {"signature": sig})
+        # ---- a configuration file that sets nothing (or something unrelated) = no configuration file: every absent key takes its DEFAULT ----------------
+        for title, text, cname in (("empty .pyscn.toml", "# nothing configured\n", ".pyscn.toml"), (".pyscn.toml with an unrelated key", "[lcom]\nlow_threshold = 2\n", ".pyscn.toml"),
+                                   ("pyproject.toml with an empty [tool.pyscn]", "[tool.pyscn]\n", "pyproject.toml")):
+            ed = os.path.join(root, "emptyproj_" + cname.strip(".").replace(".", "_") + str(len(title)))
+            os.makedirs(os.path.join(ed, "sub"))
+            shutil.copy(os.path.join(proj, "m.py"), os.path.join(ed, "m.py"))
+            shutil.copy(os.path.join(proj, "m.py"), os.path.join(ed, "sub", "inner.py"))
+            open(os.path.join(ed, "sub", "__init__.py"), "w").close()
+            with open(os.path.join(ed, "m.pyi"), "w") as f:
+                f.write("def stub_only(a: int) -> int: ...\n\nclass StubK:\n    x: int\n    def get(self) -> int: ...\n")
+            with open(os.path.join(ed, "test_m.py"), "w") as f:
+                f.write("def test_it(a):\n    if a:\n        return 1\n    return 2\n")
+            rc0, d0, e0 = C.pyscn_json(["."], ed, extra=["--min-complexity", "1"])
+            with open(os.path.join(ed, cname), "w") as f:
+                f.write(text)
+            rc2, d2, e2 = C.pyscn_json(["."], ed, extra=["--min-complexity", "1"])
+            hist["init_cases"] += 1
+            if d0 is None or d2 is None:
+                res.violation("analyze failed around an empty configuration file: %s %s" % (e0[-200:], e2[-200:]), {"signature": {"kind": "empty-config"}})
+                continue
+            fs = lambda d: sorted((f["FilePath"], f["Name"]) for f in d["complexity"]["Functions"] or [])
+            a, b = fs(d0), fs(d2)
+            if a != b:
+                lost, new = [x for x in a if x not in b], [x for x in b if x not in a]
+                sig = {"kind": "empty-config-changes-files", "stubs_dropped": bool(lost) and not new and all(x[0].endswith(".pyi") for x in lost)}
+                k = C.classify(PID, sig)
+                what = "C17: adding %s (which sets nothing relevant) changes WHICH FILES are analysed: functions lost %s, new %s" % (title, lost[:3], new[:3])
+                if k:
+                    res.known_finding(k, "(%s)" % what[:300])
+                else:
+                    res.violation(what, {"signature": sig, "config_file": cname, "config_text": text})
+            nontrivial.add(("empty-config", title))
     finally:
         shutil.rmtree(tmp, ignore_errors=True)
     if not ps.ok and not any(fi for _, _, fi in res.violations):
